@@ -28,12 +28,12 @@ PAULIS = [np.eye(2), np.array([[0, 1], [1, 0]]), np.array([[0, -1j], [1j, 0]]), 
 
 def cases(tier):
     out = []
-    n = 300 if tier == "quick" else 12000
+    n = 300 if tier == "quick" else 60000
     classes = ["cptp", "unital", "unitary", "cp_not_tp", "hp_not_cp", "not_hp", "nonpositive", "extremal", "nonextremal"]
     for r in range(n):
         out.append(("pred", classes[r % len(classes)], r))
     for name in ["depolarizing", "dephasing", "amplitude_damping", "phase_damping", "bitflip", "pauli_channel", "reduction", "choi"]:
-        for r in range(12 if tier == "quick" else 300):
+        for r in range(12 if tier == "quick" else 2000):
             out.append(("builtin", name, r))
     return out
 
